@@ -743,7 +743,7 @@ void HyperedgeImprover::outputHyperedgesToSVG(unsigned int pass,
 void HyperedgeImprover::getEndpoints(JunctionRef *junction, JunctionRef *ignore,
         std::set<VertInf *>& endpoints)
 {
-    for (std::set<ConnEnd *>::iterator curr =
+    for (ConnEndPtrSet::iterator curr =
             junction->m_following_conns.begin();
             curr != junction->m_following_conns.end(); ++curr)
     {
